@@ -114,6 +114,22 @@ func stkGen(rng *rand.Rand, n int, emit func(string)) {
 			emit(fmt.Sprintf("sniff kind=%s early=%d n=%d", kind, early, 20+rng.Intn(3000)))
 		}
 	}
+	// the sniff phase's deadline discipline: every muxer kind x every route outcome, default timeout; then connections
+	// that are still in use when they are older than the muxer's (short) timeout
+	for _, kind := range []string{"https", "mux", "muxpt"} {
+		for _, route := range []string{"ok", "user", "auth", "none", "authbad"} {
+			if kind == "https" && strings.HasPrefix(route, "auth") {
+				continue
+			}
+			emit(fmt.Sprintf("dl kind=%s to=5000 age=0 route=%s seed=%d", kind, route, rng.Intn(100000)))
+		}
+		emit(stkGenDl(rng, kind, true))
+	}
+	// closing a quic work connection while the other end is not reading: both directions, and once with a pause longer
+	// than any close timer a stream wrapper could reasonably arm (the e2e engine does the same through frps + frpc)
+	emit(fmt.Sprintf("qclose side=dial n=%d pause=0 seed=%d", 1+rng.Intn(300000), rng.Intn(100000)))
+	emit(fmt.Sprintf("qclose side=acc n=%d pause=120 seed=%d", 1+rng.Intn(300000), rng.Intn(100000)))
+	emit(fmt.Sprintf("qclose side=%s n=%d pause=3400 seed=%d", pick(rng, []string{"dial", "acc"}), 100000+rng.Intn(200000), rng.Intn(100000)))
 	for np := 1; np <= 4; np++ {
 		for to := 0; to < np; to++ {
 			emit(fmt.Sprintf("disp n=%d to=%d", np, to))
@@ -128,6 +144,15 @@ func stkGen(rng *rand.Rand, n int, emit func(string)) {
 	emit("wrl b=65536 n=65536")
 	emit("wrl b=65536 n=65537")
 	for i := 0; i < n; i++ {
+		if rng.Intn(250) == 0 {
+			emit(fmt.Sprintf("qclose side=%s n=%d pause=%d seed=%d", pick(rng, []string{"dial", "acc"}),
+				pick(rng, []int{1, 17, 1200, 65536, 1 + rng.Intn(380000)}), pick(rng, []int{0, 0, 20, 150}), rng.Intn(100000)))
+			continue
+		}
+		if rng.Intn(300) == 0 {
+			emit(stkGenDl(rng, pick(rng, []string{"https", "mux", "muxpt"}), rng.Intn(2) == 0))
+			continue
+		}
 		switch r := rng.Intn(100); {
 		case r < 36:
 			b := 1 + rng.Intn(9)
@@ -173,6 +198,20 @@ func stkGen(rng *rand.Rand, n int, emit func(string)) {
 	}
 }
 
+
+// a vhost connection handed on to its proxy, in use at an age below / above the muxer's timeout
+func stkGenDl(rng *rand.Rand, kind string, aged bool) string {
+	routes := []string{"ok", "user", "auth"}
+	if kind == "https" {
+		routes = routes[:2]
+	}
+	to := pick(rng, []int{400, 500, 700})
+	age := 0
+	if aged {
+		age = to + 60 + rng.Intn(120)
+	}
+	return fmt.Sprintf("dl kind=%s to=%d age=%d route=%s seed=%d", kind, to, age, pick(rng, routes), rng.Intn(100000))
+}
 
 // a burst from 1 byte to several KiB, small ones and powers of two (±1) over-represented
 func stkGenBurst(rng *rand.Rand) int {
@@ -1412,6 +1451,10 @@ func stkExec(tok []string) string {
 		return stkWrapOp(kv)
 	case "sniff":
 		return stkSniffOp(kv)
+	case "dl":
+		return stkDlOp(kv)
+	case "qclose":
+		return stkQCloseOp(kv)
 	}
 	return "badop"
 }
